@@ -1,5 +1,7 @@
 SPECIFICATION Spec
 CONSTANTS
+  Intervals = {100000}
+  Cycles = {31250}
   MaxLen = 3
   MaxIter = 2
   MaxOps = 3
@@ -9,4 +11,5 @@ INVARIANT Raises
 INVARIANT MuteWhenNone
 INVARIANT TargetFresh
 INVARIANT ExchangeOk
+INVARIANT Pauses
 CHECK_DEADLOCK FALSE
